@@ -20,5 +20,5 @@ mcJobAges == {0}
 mcJobMaxes == {1}
 mcProjOfName == <<>>
 mcWeights == <<>>
-mcOps == {"Publish", "Pull", "SeekTime", "ExpireSubs", "SetDelay", "Tick"}
+mcOps == {"Publish", "Pull", "PullWait", "SeekTime", "ExpireSubs", "SetDelay", "Tick"}
 =============================================================================
